@@ -53,26 +53,49 @@ Benign == <<98, 32, 99>>     \* "b c"
 Arg(ty, d) == [ty |-> ty, default |-> d]
 Fld(ty, args) == [ty |-> ty, args |-> args]
 StrDefault(cp) == [k |-> "str", cp |-> cp]
+NullDefault == [k |-> "null"]  \* an explicit `= null` (InputValue::default_value(Value::Null)): not the same as no default
 
 \* Base(slot, s): the type system with text s in slot `slot` (every other string is benign or absent)
 Base(slot, s) ==
   LET D(rec, sl) == IF slot = sl THEN Ext(rec, "description", s) ELSE rec
       R(rec, sl) == IF slot = sl THEN Ext(rec, "deprecated", [reason |-> s]) ELSE rec
       argA == R(D(Arg(Named("String"), IF slot = "argDefault" THEN StrDefault(s) ELSE StrDefault(Benign)), "argDesc"), "argReason")
-      fieldF == R(D(Fld(Named("Int"), Ext(Ext(EmptyFn, "a", argA), "b", Arg(Named("Int"), [k |-> "int", v |-> "7"]))), "fieldDesc"), "fieldReason")
-      ifaceF == Fld(Named("Int"), Ext(Ext(EmptyFn, "a", Arg(Named("String"), NoDefault)), "b", Arg(Named("Int"), NoDefault)))
+      \* arguments: a string default, an int default, explicit null defaults on a named and on a list type, none at all
+      fieldF == R(D(Fld(Named("Int"), Ext(Ext(Ext(Ext(EmptyFn, "a", argA), "b", Arg(Named("Int"), [k |-> "int", v |-> "7"])),
+                                                  "c", Arg(ListOf(Named("Int")), NullDefault)), "d", Arg(Named("Boolean"), NullDefault))), "fieldDesc"), "fieldReason")
+      ifaceF == Fld(Named("Int"), Ext(Ext(Ext(EmptyFn, "a", Arg(Named("String"), NoDefault)), "b", Arg(Named("Int"), NoDefault)),
+                                      "c", Arg(ListOf(Named("Int")), NullDefault)))
       v1 == R(D([name |-> "V1"], "valueDesc"), "valueReason")
       inX == R(D(Arg(Named("String"), IF slot = "inputDefault" THEN StrDefault(s) ELSE NoDefault), "inputDesc"), "inputReason")
   IN [types |->
         [E |-> D([T("ENUM") EXCEPT !.values = <<v1, [name |-> "V2", deprecated |-> EmptyFn]>>], "typeDesc"),
          I |-> [T("INTERFACE") EXCEPT !.fields = Ext(EmptyFn, "f", ifaceF)],
          O |-> [T("OBJECT") EXCEPT !.fields = Ext(Ext(EmptyFn, "f", fieldF), "g", Fld(NNull(ListOf(NNull(Named("E")))), EmptyFn)), !.implements = <<"I">>],
-         Query |-> [T("OBJECT") EXCEPT !.fields = Ext(Ext(Ext(EmptyFn, "q", Fld(Named("I"), Ext(EmptyFn, "x", Arg(Named("X"), NoDefault)))),
+         Query |-> [T("OBJECT") EXCEPT !.fields = Ext(Ext(Ext(EmptyFn, "q", Fld(Named("I"), Ext(Ext(EmptyFn, "x", Arg(Named("X"), NoDefault)), "n", Arg(Named("X"), NullDefault)))),
                                                         "u", Fld(Named("U"), EmptyFn)), "s", Fld(Named("S"), EmptyFn))],
          S |-> IF slot = "specifiedBy" THEN Ext(T("SCALAR"), "specifiedBy", s) ELSE Ext(T("SCALAR"), "specifiedBy", <<104, 116, 116, 112, 58, 47, 47, 120>>),
          U |-> [T("UNION") EXCEPT !.members = <<"O">>],
-         X |-> [T("INPUT_OBJECT") EXCEPT !.inputFields = Ext(Ext(EmptyFn, "x", inX), "y", Arg(NNull(Named("Int")), [k |-> "int", v |-> "1"]))]],
+         X |-> [T("INPUT_OBJECT") EXCEPT !.inputFields = Ext(Ext(Ext(Ext(EmptyFn, "x", inX), "y", Arg(NNull(Named("Int")), [k |-> "int", v |-> "1"])),
+                                                                  "z", Arg(Named("Int"), NullDefault)), "w", Arg(ListOf(NNull(Named("E"))), NullDefault))]],
       query |-> "Query", mutation |-> "", subscription |-> ""]
+
+\* ---- mode G: directive invocations (dynamic::Directive::new("meta").argument(..)) -----------------------------
+\* Every definition of the base type system that can carry a directive x argument lists: none, all null, some null,
+\* none null (MetaDirectiveInvocation::sdl must print `@meta`, `@meta(a1: null)`, ...: a syntactically valid document
+\* whatever the values are).  Invocations are not among the things C17 compares; the document must parse and
+\* denote Describe(ts, opts) as before.
+AppliedLocs == {"object", "field", "arg", "interface", "ifaceField", "ifaceArg", "enum", "enumValue", "inputObject", "inputField",
+                "union", "scalar"}
+VNull == [k |-> "null"]
+VInt  == [k |-> "int", v |-> "7"]
+VStr  == [k |-> "str", cp |-> <<116, 34>>]                       \* t"
+Simple == {VNull, VInt, VStr}
+Exotic == {[k |-> "enum", v |-> "V1"], [k |-> "bool", v |-> TRUE], [k |-> "list", items |-> <<VNull, VInt>>], [k |-> "list", items |-> <<>>],
+           [k |-> "obj", entries |-> <<<<"k", VNull>>>>]}
+AppliedArgs == {<<>>} \cup {<<v>> : v \in Simple \cup Exotic} \cup {<<v, w>> : v \in Simple, w \in Simple}
+               \cup {<<VNull, VNull, VNull>>, <<VNull, VInt, VNull>>, <<VInt, VNull, VStr>>}
+ArgClass(args) == LET nulls == {i \in DOMAIN args : args[i] = VNull} IN
+  IF args = <<>> THEN "none" ELSE IF nulls = DOMAIN args THEN "all_null" ELSE IF nulls = {} THEN "none_null" ELSE "some_null"
 
 \* texts of up to 2 atoms go into every slot; longer ones into one slot per printer and indentation level
 DescSlots  == IF n <= 2 THEN {"typeDesc", "fieldDesc", "argDesc", "valueDesc", "inputDesc"} ELSE {"typeDesc", "argDesc"}
@@ -90,7 +113,9 @@ Emit ==
            IN /\ PrintT(<<"BASE", "plain", ToJson(b)>>)
               /\ PrintT(<<"BASE", "fedO", ToJson(Ext(keyed(b, "O"), "federation", [entities |-> <<"O">>]))>>)
               /\ PrintT(<<"BASE", "fedIO", ToJson(Ext(keyed(keyed(b, "O"), "I"), "federation", [entities |-> <<"I", "O">>]))>>)
-              /\ PrintT(<<"BASE", "fedNone", ToJson(Ext(b, "federation", [entities |-> <<>>]))>>))
+              /\ PrintT(<<"BASE", "fedNone", ToJson(Ext(b, "federation", [entities |-> <<>>]))>>)
+              /\ \A loc \in AppliedLocs : \A args \in AppliedArgs :
+                   PrintT(<<"APPLIED", ToJson([loc |-> loc, args |-> args, class |-> ArgClass(args), ts |-> b])>>))
   /\ \A slot \in DescSlots : \A single \in BOOLEAN : \A indent \in (IF single THEN {0} ELSE {0, 2}) :
        PrintT(<<"REPLAY", ToJson([slot |-> slot, opts |-> Opts(single, indent, FALSE), ts |-> Base(slot, text)])>>)
   /\ \A slot \in OtherSlots :
